@@ -186,7 +186,10 @@ def replay_frame(arg):
         c = dict(mgr="perception", task="detection2d" if f["is2d"] else "detection", x=not f["is2d"], y=not f["is2d"], dmax=False, dmin=False, minPts=True,
                  unknownKey=False, nFrameIds=1, thr="ok", n=2)
         d, frame_id = concrete(c)
-        _EC[key] = PerceptionEvaluationConfig([], frame_id, os.path.join(_tmp(), "f%d" % key), d)
+        try:
+            _EC[key] = PerceptionEvaluationConfig([], frame_id, os.path.join(_tmp(), "f%d" % key), d)
+        except Exception as ex:
+            return [("config-rejected", "PerceptionEvaluationConfig rejected the valid configuration %s: %r" % (d, ex), {"dict": d})]
     ec = _EC[key]
     n = 2 + f["lenDelta"]
     lst = [10.0, 20.0, 30.0][:n]
